@@ -67,6 +67,8 @@ class Canon:
             return
         seen.add(id(o))
         tn = type(o).__name__
+        if getattr(o, "_ufl_is_terminal_", False):
+            tn = getattr(getattr(o, "_ufl_class_", None), "__name__", tn)  # user subclasses count as their UFL class
         if isinstance(o, Form):
             for itg in o.integrals():
                 self._collect(itg, seen)
@@ -195,7 +197,8 @@ class Canon:
     def expr(self, o):
         tn = type(o).__name__
         if o._ufl_is_terminal_:
-            return self.terminal(o, tn)
+            # user subclasses of Coefficient / Constant / ... mean what their UFL class means
+            return self.terminal(o, getattr(getattr(o, "_ufl_class_", None), "__name__", tn))
         ops = tuple(self.expr(x) for x in o.ufl_operands)
         extra = ()
         if tn in ("ExternalOperator", "Interpolate"):
